@@ -71,6 +71,7 @@ ShapeDef(i) ==
                   @@ A("S1", 1, 6) :> [c |-> "const", v |-> DateT(43890, 1, 2)]
                   @@ A("S1", 1, 7) :> [c |-> "const", v |-> Rat(5, 2)]
                   @@ A("S1", 1, 9) :> [c |-> "const", v |-> Txt(<<>>)]          \* an empty text that no range covers
+                  @@ A("S1", 1, 10) :> [c |-> "const", v |-> DateT(43890, 1, 8192)]  \* 00:00:10.546875 - microseconds that are no whole milliseconds
                   @@ A("S 2", 1, 1) :> Kc(1)
                   @@ A("S1", 2, 1) :> Fm(Bin("/", N1, Bin("-", RelRef(1, 1), N1)))
                   @@ A("S1", 2, 2) :> Fm(Bin("&", RelRef(1, 2), StrLit(<<120>>)))
@@ -96,7 +97,8 @@ ShapeDef(i) ==
     [] i = "named" ->
         [cells |-> ( A("S1", 1, 1) :> Kc(1) @@ A("S1", 1, 2) :> Kc(1)
                   @@ A("S1", 2, 1) :> Fm(Bin("+", Bin("*", NameRef("Rate"), N2), RelRef(1, 2)))
-                  @@ A("S1", 3, 1) :> Fm(CallN("SUM", <<RelRef(2, 1), NameRef("Rate")>>)) ),
+                  @@ A("S1", 3, 1) :> Fm(CallN("SUM", <<RelRef(2, 1), NameRef("Rate")>>))
+                  @@ A("S1", 4, 1) :> Fm(Bin("+", Bin("*", NameRef("RATE"), N3), RelRef(1, 2))) ),     \* the name in another letter case
          names |-> ("Rate" :> Ref("S1", 1, 1, TRUE, TRUE)), inputs |-> {A("S1", 1, 1), A("S1", 1, 2)}]
     [] i = "lazy" ->         \* bare references and ranges handed to the lazily evaluating functions
         [cells |-> ( A("S1", 1, 1) :> Kc(1) @@ A("S1", 2, 1) :> Kc(1) @@ A("S1", 3, 1) :> Kc(5)
@@ -104,7 +106,10 @@ ShapeDef(i) ==
                   @@ A("S1", 2, 2) :> Fm(CallN("NOT", <<RelRef(1, 1)>>))
                   @@ A("S1", 3, 2) :> Fm(CallN("IF", <<RelRef(2, 2), RelRef(1, 2), RelRef(2, 1)>>))
                   @@ A("S1", 4, 2) :> Fm(CallN("SUM", <<CallN("IF", <<Bin(">", RelRef(1, 1), NumLit(<<48>>)), Rng("", 1, 1, 2, 1), RelRef(3, 1)>>)>>))
-                  @@ A("S1", 5, 2) :> Fm(CallN("AND", <<RelRef(1, 1), RelRef(2, 1)>>)) ),
+                  @@ A("S1", 5, 2) :> Fm(CallN("AND", <<RelRef(1, 1), RelRef(2, 1)>>))
+                  \* a cell that RAISES (unknown function) for B1 > 0 - also for the initial B1 - and a dependant of it
+                  @@ A("S1", 6, 2) :> Fm(CallN("IF", <<Bin(">", RelRef(2, 1), NumLit(<<48>>)), CallN("NOSUCHFUNC", <<N1>>), Bin("+", RelRef(2, 1), N1)>>))
+                  @@ A("S1", 7, 2) :> Fm(Bin("+", RelRef(6, 2), N1)) ),
          names |-> <<>>, inputs |-> {A("S1", 1, 1), A("S1", 2, 1)}]
     [] i = "qnames" ->       \* a cell name and a range name on a sheet whose name must be quoted
         [cells |-> ( A("S 2", 1, 1) :> Kc(1) @@ A("S 2", 1, 2) :> Kc(1)
@@ -144,7 +149,11 @@ CellNames == {nm \in Names : ShapeDef(shape).names[nm].k = "ref"}          \* na
 Inputs == ShapeDef(shape).inputs
 FormulaCells == {c \in Cells : content[c].c = "formula"}
 \* TRUE: equal to the initial 1 under a naive ==, but another value; 0: a value that "holds nothing" to a naive truth test
-SetVals == SubSeq(<<Whole(2), Bool(TRUE), Whole(0), Whole(3)>>, 1, NSet)
+\* "7": numeric-looking TEXT set over a number stays text.  NSet = n: the first n of the main list; NSet = 10 + n: the
+\* first n of the alternative list (configuration files select one of the two orders)
+SetMain == <<Whole(2), Bool(TRUE), Whole(0), Whole(3)>>
+SetAlt  == <<Whole(2), Txt(<<55>>), Bool(TRUE), Whole(0)>>
+SetVals == IF NSet >= 10 THEN SubSeq(SetAlt, 1, NSet - 10) ELSE SubSeq(SetMain, 1, NSet)
 
 Wb(cont) == [cells |-> cont, names |-> ShapeDef(shape).names]
 Fresh(cont, c) == Eval(cont[c].ast, c[1], Wb(cont))
